@@ -22,7 +22,14 @@ def run(prop, tier, seed, ctx):
     res2 = tlc.run("MC_TifaRobust", "MC_TifaRobust_ctor_q.cfg", workers=4, timeout=600)
     tlc.require_ok(res2, "MC_TifaRobust_ctor_q.cfg")
     ctx.add_tlc(res2, "constructor cells x histories with a program that subscripts the builtin constructors")
-    uniq = {json.dumps([r["cell"], [(h["op"], h["p"]) for h in r["hist"]]], sort_keys=True): r for r in res.records}
+    # deep random histories (tlc -simulate): nine analyze/clear operations over all four program classes per cell
+    num = 150 if tier == "quick" else 5000
+    sres = tlc.run("MC_TifaRobust", "SIM_TifaRobust_deep.cfg", workers=4, timeout=900, simulate="num=%d" % num, extra=["-depth", "12", "-seed", str(1000 + seed)])
+    tlc.require_ok(sres, "simulation SIM_TifaRobust_deep.cfg")
+    ctx.add_tlc(sres, "simulation (%d histories of 9 operations) SIM_TifaRobust_deep.cfg" % (4 * num))
+    if len(sres.records) < num:
+        raise MachineryError("simulation exported only %d histories" % len(sres.records))
+    uniq = {json.dumps([r["cell"], [(h["op"], h["p"]) for h in r["hist"]]], sort_keys=True): r for r in list(res.records) + list(sres.records)}
     # the constructor histories look for PROCESS-wide residue: each one is replayed in a process of its own
     uniq2 = {json.dumps([r["cell"], [(h["op"], h["p"]) for h in r["hist"]]], sort_keys=True): r for r in res2.records}
     cases = list(enumerate(uniq.values()))
